@@ -263,6 +263,13 @@ mod rayon_impls;
 #[cfg(feature = "serde")]
 mod serde_impls;
 
+/// Verification hooks (only with `--cfg flurry_verif`).
+#[cfg(flurry_verif)]
+pub mod verif;
+/// Read-only inspector (only with `--cfg flurry_verif`).
+#[cfg(flurry_verif)]
+pub use map::verif_map as verif_inspect;
+
 /// Iterator types.
 pub mod iter;
 
